@@ -102,9 +102,23 @@ func planC03(p *propDef, tier string, seed uint64, n int) []*Case {
 	parallel(nScen, 16, func(i int) {
 		s := mix(seed, uint64(1000+i))
 		t := scen.NewTape(s ^ 0xc03)
-		sc := scen.GenCrawl(t, scen.CrawlOpts{Prop: "C03", MinSeeds: 2, MaxSeeds: 4, Small: true, NoBadSeeds: true, Faults: i%2 == 1, RateLimit: -1, Hops: true, Rotation: i%4 == 3})
+		sc := scen.GenCrawl(t, scen.CrawlOpts{Prop: "C03", MinSeeds: 2, MaxSeeds: 4, Small: i%2 == 0, NoBadSeeds: true, Faults: i%2 == 1, RateLimit: -1, Hops: true, Rotation: i%4 == 3})
 		if i%3 != 1 && sc.Cfg.MaxHops == 0 {
 			sc.Cfg.MaxHops = 1 // outlinks are forwarded between stages in most scenarios
+		}
+		if i%2 == 1 {
+			// make sure some response of this site is on the discard list (the WARC library reports every rejected response as an
+			// error: one of them must be in flight when the stop comes)
+			var sts []int
+			for _, res := range sc.Site {
+				if len(res.Resp) > 0 && res.Resp[0].Status >= 300 && res.Resp[0].Status != 429 {
+					sts = append(sts, res.Resp[0].Status)
+				}
+			}
+			sort.Ints(sts)
+			if len(sts) > 0 {
+				sc.Cfg.DiscardStatus = append(sc.Cfg.DiscardStatus, sts[0])
+			}
 		}
 		label := stopMatrix(sc, t, i)
 		sc.Sched.MaxSimSec = 6 * 3600
@@ -137,6 +151,42 @@ func planC03(p *propDef, tier string, seed uint64, n int) []*Case {
 		for _, pt := range pts {
 			for _, nth := range occurrences(pr.pc[pt], tier) {
 				add(pr, pr.seed, fmt.Sprintf("stop@%s#%d", pt, nth), []scen.CtlAction{{Name: "stop", Kind: "stop", Trigger: scen.Trigger{Point: pt, Nth: nth}}}, nil)
+			}
+		}
+		// stop while a fetch is in flight whose response the WARC library will reject or find broken (a status on the discard
+		// list, a reset or short body): the library then reports an error while the archiver is already shutting down
+		{
+			var keys []string
+			for key, res := range pr.sc.Site {
+				if len(res.Resp) == 0 {
+					continue
+				}
+				rp := res.Resp[0]
+				bad := rp.Fault != ""
+				for _, st := range pr.sc.Cfg.DiscardStatus {
+					if rp.Status == st {
+						bad = true
+					}
+				}
+				if bad && res.Expect != scen.Never {
+					keys = append(keys, key)
+				}
+			}
+			sort.Strings(keys)
+			if os.Getenv("VCHECK_DEBUG") != "" {
+				st := map[string]int{}
+				for _, res := range pr.sc.Site {
+					if len(res.Resp) > 0 {
+						st[fmt.Sprintf("%d/%s", res.Resp[0].Status, res.Resp[0].Fault)]++
+					}
+				}
+				fmt.Fprintf(os.Stderr, "profile %d: %d resources with a rejected or broken first response; discard=%v first responses=%v\n", i, len(keys), pr.sc.Cfg.DiscardStatus, st)
+			}
+			for j, key := range keys {
+				if j >= 6 {
+					break
+				}
+				add(pr, mix(pr.seed, uint64(600+j)), "stop@origin.request of "+key+" (rejected or broken response in flight)", []scen.CtlAction{{Name: "stop", Kind: "stop", Trigger: scen.Trigger{Point: "origin.request", Actor: "origin:" + key + "#", Nth: 1}}}, nil)
 			}
 		}
 		// stop before anything happened, and after the drain
